@@ -19,6 +19,17 @@ class NotConst(Exception):
     pass
 
 
+class CompiledRe:
+    """what `re.compile(pattern, flags)` folds to"""
+
+    def __init__(self, pattern, flags: int = 0) -> None:
+        self.pattern = pattern
+        self.flags = flags
+
+    def __repr__(self) -> str:
+        return f"re.compile({self.pattern!r}, {self.flags})"
+
+
 class Opaque:
     """A symbolic atom standing for a run-time value inside an otherwise constant string/bytes
     template (e.g. the multipart boundary)."""
@@ -249,10 +260,18 @@ class Folder:
             if isinstance(a0, ast.Name) and a0.id in ("ord", "chr") and self.p.lookup_name(mod, a0.id) is None:
                 seq = f(call.args[1])
                 return [ord(c) if a0.id == "ord" else chr(c) for c in seq]
+            if isinstance(a0, ast.Attribute) and self.p.resolve_dotted(mod, a0) == ("ext", "re.escape"):
+                seq = f(call.args[1])
+                if isinstance(seq, (list, tuple)) and all(isinstance(x, (str, bytes)) for x in seq):
+                    return [re.escape(x) for x in seq]
             raise NotConst("map")
         args = [f(a) for a in call.args]
         if name == "re.escape" and len(args) == 1 and isinstance(args[0], (str, bytes)):
             return re.escape(args[0])
+        if name == "re.compile" and 1 <= len(args) <= 2 and isinstance(args[0], (str, bytes)) and all(isinstance(a, int) for a in args[1:]):
+            return CompiledRe(args[0], args[1] if len(args) > 1 else 0)
+        if name == "reversed" and len(args) == 1 and isinstance(args[0], (list, tuple, range, str, bytes)):
+            return list(reversed(args[0]))
         if name == "set" and len(args) <= 1:
             return set(*args)
         if name == "frozenset" and len(args) <= 1:
